@@ -40,14 +40,27 @@ def stop_condition(mt):
     return mt.VTR(0.0, -1.0)
 
 
-def build_termination(mt, conf, stop=None, vals=float):
+def build_termination(mt, conf, stop=None, vals=float, emb=None, mask_fillers=False):
+    """Or(stop, CollapseAt, CollapseAs) of a configuration; emb: at the real positions of an embedding
+    (harness/c11_embed.py); mask_fillers: the filler positions are named in the initial masks"""
     members = [stop if stop is not None else stop_condition(mt)]
+    embedded = emb is not None and not emb.identity
+    target = _target(conf["atTgt"], vals)
+    mat, mas = py_mask(conf["initAt"]), py_mask(conf["initAs"])
+    if embedded:
+        if conf["atTgt"]["mode"] == "list":
+            target = emb.target_list(target)
+        if mat is not None:
+            mat = emb.idx(mat)
+        if mas is not None:
+            mas = emb.idx(i for i in mas if not isinstance(i, tuple)) | emb.pairs(i for i in mas if isinstance(i, tuple))
+        if mask_fillers:
+            mat = set(mat or ()) | set(emb.fillers)
+            mas = set(mas or ()) | set(emb.fillers)
     if conf["atOn"]:
-        members.append(mt.CollapseAt(target=_target(conf["atTgt"], vals), tolerance=_tol(conf["atTol"]),
-                                     generations=conf["atG"], mask=py_mask(conf["initAt"])))
+        members.append(mt.CollapseAt(target=target, tolerance=_tol(conf["atTol"]), generations=conf["atG"], mask=mat))
     if conf["asOn"]:
-        members.append(mt.CollapseAs(offset=False, tolerance=_tol(conf["asTol"]), generations=conf["asG"],
-                                     mask=py_mask(conf["initAs"])))
+        members.append(mt.CollapseAs(offset=False, tolerance=_tol(conf["asTol"]), generations=conf["asG"], mask=mas))
     return mt.Or(*members)
 
 
@@ -62,9 +75,14 @@ def members_of(message):
     return out
 
 
-def masks_of(mt, termination):
-    """the masks of the CollapseAt / CollapseAs members, read from the termination's reported state"""
+def masks_of(mt, termination, emb=None, mask_fillers=False):
+    """the masks of the CollapseAt / CollapseAs members, read from the termination's reported state.
+    Under an embedding: translated back to the specification's parameters, fillers dropped, pairs as (i, j), i < j
+    (a mask pair counts in either orientation); with mask_fillers the real mask is never None"""
     out = {"at": {"none": True, "idx": [], "prs": []}, "as": {"none": True, "idx": [], "prs": []}}
+    embedded = emb is not None and not emb.identity
+    if embedded and mask_fillers:
+        out = {"at": {"none": False, "idx": [], "prs": []}, "as": {"none": False, "idx": [], "prs": []}}
     for doc, kw in mt.state(termination).items():
         k = "at" if doc.startswith("CollapseAt") else "as" if doc.startswith("CollapseAs") else None
         if k is None:
@@ -74,12 +92,35 @@ def masks_of(mt, termination):
             continue
         idx = sorted(int(i) for i in m if not hasattr(i, "__len__"))
         prs = sorted([int(i[0]), int(i[1])] for i in m if hasattr(i, "__len__"))
+        if embedded:
+            idx = sorted(emb.back_idx(idx)[0])
+            prs = sorted(list(q) for q in emb.back_pairs(prs)[0])
         out[k] = {"none": False, "idx": idx, "prs": prs}
     return out
 
 
-def reported_of(collapses):
-    """Collapse()'s return value {doc: collapse} as (indices, pairs)"""
+def norm_mask(m):
+    """a specification mask with its pairs as (i, j), i < j (what masks_of gives under an embedding)"""
+    return {"none": m["none"], "idx": sorted(m["idx"]), "prs": sorted(sorted(q) for q in m.get("prs", []))}
+
+
+class FillerCollapsed(Exception):
+    pass
+
+
+def reported_of(collapses, emb=None):
+    """Collapse()'s return value {doc: collapse} as (indices, pairs) of the specification's parameters"""
+    ra, rs = _reported_of(collapses)
+    if emb is None or emb.identity:
+        return ra, rs
+    ra, fa = emb.back_idx(ra)
+    rs, fs = emb.back_pairs(rs)
+    if fa or fs:
+        raise FillerCollapsed("filler parameters reported as collapsed: %s %s (embedded parameters at %s)" % (sorted(fa), sorted(fs), emb.pm))
+    return ra, rs
+
+
+def _reported_of(collapses):
     ra, rs = set(), set()
     for doc, v in (collapses or {}).items():
         if doc.startswith("CollapseAt"):
@@ -109,12 +150,14 @@ KINDS = ("DE", "DE2", "NM", "PW")
 # ------------------------------------------------------------------------------------------------------
 # spec -> code: replay of one emitted stop
 # ------------------------------------------------------------------------------------------------------
-def load_stop(solver, h, l, stop, limit=False):
+def load_stop(solver, h, l, stop, limit=False, emb=None):
     """make the solver look exactly like the recorded stop: step monitor = history, best = last point"""
     from mystic.monitors import Monitor
     pts = [[float(v) for v in p] for p in h]
     if l > len(pts):                      # one older point outside every window
         pts = [[v + 5.0 for v in pts[0]]] + pts
+    if emb is not None and not emb.identity:
+        pts = emb.history(pts)            # fillers keep moving by >= 50 per record
     mon = Monitor()
     for k, p in enumerate(pts):
         last = k == len(pts) - 1
@@ -126,32 +169,41 @@ def load_stop(solver, h, l, stop, limit=False):
     return mon
 
 
-def replay_stop(mt, case, kind, points):
-    """returns (nontrivial, violations[(key, detail, what)])"""
+def replay_stop(mt, case, kind, points, emb=None):
+    """returns (nontrivial, violations[(key, detail, what)]).
+    emb: the specification's parameters sit at the real positions emb.pm of an emb.dim-dimensional solver (fillers
+    elsewhere, harness/c11_embed.py); everything is translated there and back, TLC's expectations stay as they are"""
     warnings.simplefilter("ignore")
     conf = case["conf"]
     n = len(case["h"][0])
-    s = solver_of(kind, n)
-    s.SetTermination(build_termination(mt, conf))
+    if emb is not None and emb.identity:
+        emb = None
+    s = solver_of(kind, n if emb is None else emb.dim)
+    s.SetTermination(build_termination(mt, conf, emb=emb))
     viol = []
 
     def bad(key, what, **detail):
         d = {"solver": kind, "termination": conf, "script(stops at which Collapse() was applied)": case["script"],
              "stop": {"history": case["h"], "len": case["l"], "members": case["msg"]}}
+        if emb is not None:
+            d["embedding"] = repr(emb)
         d.update(detail)
-        viol.append(("collapse-call:" + key, d, "%s solver, stops %s then history %s: %s" % (
-            kind, [e["h"] for e in case["script"]], case["h"], what)))
+        viol.append(("collapse-call:" + key, d, "%s solver%s, stops %s then history %s: %s" % (
+            kind, "" if emb is None else " (parameters at %r)" % (emb,), [e["h"] for e in case["script"]], case["h"], what)))
 
     try:
         for e in case["script"]:
-            load_stop(s, e["h"], e["l"], False)
+            load_stop(s, e["h"], e["l"], False, emb=emb)
             s.Collapse()
-        load_stop(s, case["h"], case["l"], "stop" in case["msg"], "limit" in case["msg"])
+        load_stop(s, case["h"], case["l"], "stop" in case["msg"], "limit" in case["msg"], emb=emb)
         got_msg = members_of(s.Terminated(info=True))
-        before = masks_of(mt, s._termination)
+        before = masks_of(mt, s._termination, emb)
         got = s.Collapse()
-        ra, rs = reported_of(got)
-        after = masks_of(mt, s._termination)
+        ra, rs = reported_of(got, emb)
+        after = masks_of(mt, s._termination, emb)
+    except FillerCollapsed as ex:
+        bad("filler-collapsed", str(ex))
+        return False, viol
     except Exception as ex:
         bad("raises", "raised %r" % (ex,), error=repr(ex))
         return False, viol
@@ -169,6 +221,8 @@ def replay_stop(mt, case, kind, points):
     exp_mk = case["mk"]
     for k in ("at", "as"):
         e, g = exp_mk[k], after[k]
+        if emb is not None:
+            e = norm_mask(e)
         same = (e["none"] == g["none"] and sorted(e["idx"]) == g["idx"]
                 and sorted(map(list, e.get("prs", []))) == g["prs"])
         if not same:
@@ -183,8 +237,17 @@ def replay_stop(mt, case, kind, points):
     seen = {}
     for x in points:
         try:
-            y = s._constraints([float(v) for v in x])
-            y = tuple(float(v) for v in y)
+            if emb is None:
+                y = s._constraints([float(v) for v in x])
+                y = tuple(float(v) for v in y)
+            else:
+                xr = emb.point(x, fill=lambda f: 7.0 + f)
+                yr = [float(v) for v in s._constraints(list(xr))]
+                moved = [f for f in emb.fillers if yr[f] != xr[f]]
+                if moved:
+                    bad("filler-constrained", "the constraints changed filler parameters %s: %s -> %s" % (moved, xr, yr))
+                    break
+                y = tuple(emb.back_point(yr))
         except Exception as ex:
             bad("constraints-raise[target=%s]" % conf["atTgt"]["mode"], "Collapse() reported pins %s, ties %s; then constraints(%s) "
                 "raised %r" % (sorted(exp_ra), sorted(exp_rs), list(x), ex), error=repr(ex))
@@ -278,29 +341,47 @@ def record_run(mt, spec):
     intern = Interner()
     random.seed(spec["seed"])
     numpy.random.seed(spec["seed"])
-    s = solver_of(kind, n, spec.get("npop", 6))
+    emb = None
+    if spec.get("pm"):                      # the run happens in a larger dimension; the specification's parameters at pm
+        from harness.c11_embed import Emb
+        emb = Emb(spec["pm"], spec.get("dim"))
+        if emb.identity:
+            emb = None
+    dim = n if emb is None else emb.dim
+    back = (lambda x: x) if emb is None else emb.back_point
+    s = solver_of(kind, dim, spec.get("npop", 6))
     if kind in ("DE", "DE2"):
-        s.SetRandomInitialPoints([-2.0] * n, [2.0] * n)
+        s.SetRandomInitialPoints([-2.0] * dim, [2.0] * dim)
     else:
-        s.SetInitialPoints(list(spec["x0"]))
+        s.SetInitialPoints(list(spec["x0"]) if emb is None else emb.point(spec["x0"], fill=lambda f: 1.5))
     s.SetEvaluationLimits(generations=spec["gens"], evaluations=spec.get("evals"))
     stop = {"never": lambda: mt.VTR(0.0, -1.0), "vtr": lambda: mt.VTR(1e-12, 0.0),
             "cog": lambda: mt.ChangeOverGeneration(1e-9, 8)}[spec["stop"]]()
-    events = [{"ev": "New", "kind": kind, "n": n, "conf": id_conf(conf, intern, n)}]
-    s.SetTermination(build_termination(mt, conf, stop=stop))
-    f = objective(spec["obj"])
+    cf = id_conf(conf, intern, n)
+    if emb is not None:                      # fillers are named in the real initial masks (never None); pairs unoriented
+        cf["initAt"], cf["initAs"] = norm_mask(dict(cf["initAt"], none=False)), norm_mask(dict(cf["initAs"], none=False))
+    events = [{"ev": "New", "kind": kind, "n": n, "conf": cf}]
+    if emb is not None:
+        events[0]["embedding"] = repr(emb)
+    s.SetTermination(build_termination(mt, conf, stop=stop, emb=emb, mask_fillers=True))
+    f0 = objective(spec["obj"])
+    if emb is None:
+        f = f0
+    else:                                    # the fillers matter only weakly
+        def f(x):
+            return f0(back(x)) + 1e-3 * sum((x[k] - 1.0) ** 2 for k in emb.fillers)
     state = {"collapsed": False, "calls": 0, "ncol": 0}
     maxcol = n + n * (n - 1) // 2 + 3
 
     def cost(x):
         state["calls"] += 1
         if state["collapsed"]:
-            events.append({"ev": "CostCall", "x": intern.point(x)})
+            events.append({"ev": "CostCall", "x": intern.point(back(x))})
         return f(x)
 
     def log_stop(message):
         xs = list(s._stepmon.x)[-KWIN:]
-        events.append({"ev": "Stop", "msg": sorted(members_of(message)), "h": [intern.point(p) for p in xs],
+        events.append({"ev": "Stop", "msg": sorted(members_of(message)), "h": [intern.point(back(p)) for p in xs],
                        "len": min(len(s.energy_history), KWIN + 1)})
 
     orig = s.Collapse
@@ -310,11 +391,11 @@ def record_run(mt, spec):
         if message is None:
             message = s.Terminated(info=True)
         log_stop(message)
-        before = masks_of(mt, s._termination)
+        before = masks_of(mt, s._termination, emb, True)
         r = orig(disp)
-        after = masks_of(mt, s._termination)
+        after = masks_of(mt, s._termination, emb, True)
         if r:
-            ra, rs = reported_of(r)
+            ra, rs = reported_of(r, emb)
             t = conf["atTgt"]
             vals = []
             for i in range(n):
@@ -350,7 +431,7 @@ def record_run(mt, spec):
                     break
         if events[-1]["ev"] != "NoCollapse":
             log_stop(s.Terminated(info=True))
-        events.append({"ev": "End", "best": intern.point(s.bestSolution), "calls": state["calls"], "gens": s.generations,
+        events.append({"ev": "End", "best": intern.point(back(s.bestSolution)), "calls": state["calls"], "gens": s.generations,
                        "ncol": state["ncol"]})
     except Exception as ex:
         events.append({"ev": "Raise", "what": repr(ex)[:300], "calls": state["calls"], "ncol": state["ncol"]})
@@ -415,9 +496,14 @@ def replay_stops_chunk(args):
     import itertools
     import mystic.termination as mt
     out = []
+    from harness.c11_embed import maps_for
     for i, c in cases:
-        pts = list(itertools.product(vals, repeat=len(c["h"][0])))
+        n = len(c["h"][0])
+        pts = list(itertools.product(vals, repeat=n))
         nt, viol = replay_stop(mt, c, KINDS[i % 4], pts)
+        out.append((i, nt, viol))
+        embs = maps_for(n)[1:]                 # and once more at rotating real positions of a larger solver
+        nt, viol = replay_stop(mt, c, KINDS[(i // 4) % 4], pts, emb=embs[(i // 2) % len(embs)])
         out.append((i, nt, viol))
     return out
 
